@@ -150,7 +150,7 @@ func c02Oracle(w *World, s *Setup, from int) *Violation {
 func C02Scenario() *Scenario {
 	return &Scenario{Prop: "C02", Init: func(w *World) {
 		t := w.T
-		s := NewCompositeSetup(w, GenOpts{PlainOwner: true, AllowCluster: true, AllowSSA: true, MaxWorkers: 3, MaxParents: 2, LookAlikes: true, AvoidKnown: true, Resync: true})
+		s := NewCompositeSetup(w, GenOpts{PlainOwner: true, SameNames: true, AllowCluster: true, AllowSSA: true, MaxWorkers: 3, MaxParents: 2, LookAlikes: true, AvoidKnown: true, Resync: true})
 		// second parent with an overlapping selector
 		if len(s.Parents) > 1 && t.Pick(2, "overlap") == 1 {
 			p0, p1 := s.Parents[0], s.Parents[1]
